@@ -6,6 +6,7 @@ import ast
 
 from vlib.core import AnalysisError, Report
 from vlib.flow import raised_name
+from vlib.match import FI, X, deref, facts, has_call, nodes
 from vlib.srcindex import SourceIndex, mangle, unparse, walk_no_nested
 from vlib.stores import effects_of, is_fresh, stores_of
 
@@ -73,9 +74,17 @@ def run(rep: Report, tier: str) -> None:
 			ra.ok(f'{cls.name}.{mname}:no-operand-mutation', f.where)
 	# the memo is exempt only while it is a pure function of the factory
 	inv = di.method('invoke')
-	src = unparse(inv.node)
-	ra.check('self.__invocations[fullyname] = self.__pluck_annotations(annotated)' in src and 'fullyname = to_fullyname(factory)' in src, 'DI.__invocations-is-pure-memo', inv.where,
-		'__invocations is no longer a memo of __pluck_annotations keyed by the factory name; it must then be cloned/combined like the other stores')
+	ix = FI(inv)
+	fparam = inv.params()[1] if len(inv.params()) > 1 else 'factory'
+	memo_sets = [n for n in nodes(ix, ast.Assign) if isinstance(n.targets[0], ast.Subscript) and unparse(n.targets[0].value) == 'self.__invocations']
+	if not memo_sets:
+		ra.skip('DI.__invocations-is-pure-memo', inv.where, 'invoke no longer fills self.__invocations')
+	for n in memo_sets:
+		k, v = n.targets[0].slice, n.value
+		key_ok = isinstance(k, ast.Call) and unparse(k.func) == 'to_fullyname' and len(k.args) == 1 and unparse(k.args[0]) == fparam
+		free = {x.id for x in ast.walk(v) if isinstance(x, ast.Name)}
+		val_ok = has_call(v, '__pluck_annotations') and free <= {'self', fparam}
+		ra.check(key_ok and val_ok, 'DI.__invocations-is-pure-memo', inv.where, f'__invocations must stay a memo of __pluck_annotations(<factory>) keyed by to_fullyname(<factory>) — a pure function of the factory — or be cloned/combined like the other stores: `{unparse(n)[:160]}`', unparse(n)[:160])
 
 	# ---- (b) bind / unbind pairing ------------------------------------------------------------------------------------
 	rb = rep.rule('C19/bind-unbind-pairing', 'stores written on the bind/resolve path == stores deleted on the unbind path (per class, following super()); rebind = unbind then bind when bound', floor=5)
@@ -118,7 +127,13 @@ def run(rep: Report, tier: str) -> None:
 	seq = [(n.lineno, n.func.attr) for n in walk_no_nested(rebind.node) if isinstance(n, ast.Call) and isinstance(n.func, ast.Attribute) and n.func.attr in ('bind', 'unbind')]
 	rb.check([a for _, a in sorted(seq)] == ['unbind', 'bind'], 'rebind-order', rebind.where, f'rebind must unbind (when bound) and then bind: {sorted(seq)}')
 	res = di.method('resolve')
-	rb.check('if found_symbol not in self.__instances' in unparse(res.node), 'resolve-singleton', res.where, 'resolve no longer creates the instance only when absent (one instance per binding generation)')
+	rx = X(res)
+	creates = [n for n in nodes(rx, ast.Assign) if isinstance(n.targets[0], ast.Subscript) and unparse(n.targets[0].value) == 'self.__instances']
+	if not creates:
+		rb.skip('resolve-singleton', res.where, 'resolve no longer stores into self.__instances')
+	for n in creates:
+		k = unparse(n.targets[0].slice)
+		rb.check((f'{k} in self.__instances', False) in facts(rx, n), 'resolve-singleton', res.where, f'resolve must create the instance only when absent (one instance per binding generation): `{unparse(n)}` runs under {facts(rx, n)}', unparse(n))
 	lz_res = lazy.method('resolve')
 	rb.check(lz_res is not None and '__bind_proxy' in unparse(lz_res.node) and 'super().resolve(symbol)' in unparse(lz_res.node), 'lazy-resolve-binds-proxy', lz_res.where if lz_res else lazy.where, 'LazyDI.resolve no longer binds the lazily registered definition before delegating')
 
@@ -132,8 +147,9 @@ def run(rep: Report, tier: str) -> None:
 				continue
 			normalised = set()
 			for n in walk_no_nested(f.node):
-				if isinstance(n, ast.Assign) and len(n.targets) == 1 and isinstance(n.targets[0], ast.Name) and isinstance(n.value, ast.Call) and isinstance(n.value.func, ast.Attribute) and n.value.func.attr in norm_calls[cls.name]:
-					normalised.add(n.targets[0].id)
+				tgt = n.targets[0] if isinstance(n, ast.Assign) and len(n.targets) == 1 else n.target if isinstance(n, ast.AnnAssign) else None
+				if isinstance(tgt, ast.Name) and isinstance(n.value, ast.Call) and isinstance(n.value.func, ast.Attribute) and n.value.func.attr in norm_calls[cls.name]:
+					normalised.add(tgt.id)
 			# private helpers of LazyDI receive the already symbolised path as `symbol_path`
 			if cls is lazy and name.startswith('__') and 'symbol_path' in f.params():
 				normalised.add('symbol_path')
@@ -153,7 +169,7 @@ def run(rep: Report, tier: str) -> None:
 						key_expr, store = n.args[0], a.attr
 				if key_expr is None:
 					continue
-				ok = isinstance(key_expr, ast.Name) and key_expr.id in normalised
+				ok = (isinstance(key_expr, ast.Name) and key_expr.id in normalised) or (isinstance(key_expr, ast.Call) and isinstance(key_expr.func, ast.Attribute) and key_expr.func.attr in norm_calls[cls.name])
 				rk.check(ok, f'{cls.name}.{name}:{store}[{unparse(key_expr)}]', (DI_PY, n.lineno), f'{cls.name}.{name} accesses {store} with key `{unparse(key_expr)}`, which is not the normalised symbol ({sorted(normalised)}): a generic alias such as Gen[A] then addresses a different entry than Gen, so unbind/rebind leaves the old instance behind', unparse(n)[:100])
 
 	# ---- (c) error types, curry prefix ----------------------------------------------------------------------------------
@@ -166,15 +182,33 @@ def run(rep: Report, tier: str) -> None:
 					rn = raised_name(n)
 					want = 'TypeError' if name == 'combine' else 'ValueError'
 					rc.check(rn == want, f'{cls.name}.{name}:raise {rn}', (DI_PY, n.lineno), f'{cls.name}.{name} raises {rn}; the container contract is {want}', unparse(n)[:120])
-	loop = [n for n in walk_no_nested(inv.node) if isinstance(n, ast.For)]
-	ok = False
-	for lp in loop:
-		body = lp.body
-		if len(body) >= 2 and isinstance(body[0], ast.If) and 'can_resolve' in unparse(body[0].test) and isinstance(body[0].test, ast.UnaryOp) and any(isinstance(s, ast.Break) for s in body[0].body) and 'curried_args.append(self.resolve(anno))' in unparse(body[1]):
-			ok = True
-	rc.check(ok, 'invoke-curry-prefix', inv.where, 'invoke must stop currying at the first parameter whose annotation is not resolvable (break) and append resolved instances in order')
-	ret = [n for n in walk_no_nested(inv.node) if isinstance(n, ast.Return)]
-	rc.check(len(ret) == 1 and unparse(ret[0].value) == 'factory(*curried_args, *remain_args)', 'invoke-argument-order', inv.where, f'invoke must call factory(*curried_args, *remain_args); returns {[unparse(r.value) for r in ret]}')
+	vx = X(inv)
+	appends = []
+	for lp in nodes(vx, ast.For):
+		if not isinstance(lp.target, ast.Name):
+			continue
+		for cl in nodes(lp, ast.Call):
+			if isinstance(cl.func, ast.Attribute) and cl.func.attr == 'append' and cl.args and isinstance(cl.args[0], ast.Call) and unparse(cl.args[0].func) == 'self.resolve' and unparse(cl.args[0].args[0]) == lp.target.id:
+				appends.append((lp, cl))
+	if not appends:
+		rc.skip('invoke-curry-prefix', inv.where, 'invoke no longer appends self.resolve(<annotation>) in a loop over the parameter annotations')
+	curried = None
+	for lp, cl in appends:
+		v = lp.target.id
+		curried = unparse(cl.func.value)
+		fs = facts(vx, cl)
+		stops = [n for n in nodes(lp, (ast.Break, ast.Return)) if (f'self.can_resolve({v})', False) in facts(vx, n)]
+		skips = [n for n in nodes(lp, ast.Continue) if (f'self.can_resolve({v})', False) in facts(vx, n)]
+		rc.check((f'self.can_resolve({v})', True) in fs and bool(stops) and not skips, 'invoke-curry-prefix', inv.where, f'invoke must stop currying at the first parameter whose annotation is not resolvable (break) and append resolved instances in order (append under {fs}; stops: {len(stops)}, skips: {len(skips)})', unparse(lp)[:200])
+		it = deref(vx, lp.iter)
+		rc.check(not (isinstance(it, ast.Call) and unparse(it.func) in ('reversed', 'sorted', 'set')), 'invoke-curry-order', inv.where, f'the annotations must be walked in parameter order: iterates `{unparse(it)}`')
+	ret = [n for n in nodes(vx, ast.Return) if n.value is not None]
+	vararg = inv.node.args.vararg.arg if inv.node.args.vararg else None
+	shape_ok = len(ret) == 1 and isinstance(ret[0].value, ast.Call) and unparse(ret[0].value.func) == fparam and not ret[0].value.keywords and [unparse(a) for a in ret[0].value.args] == [f'*{curried}', f'*{vararg}']
+	if curried is None or vararg is None:
+		rc.skip('invoke-argument-order', inv.where, 'invoke no longer has curried arguments and *remain_args')
+	else:
+		rc.check(shape_ok, 'invoke-argument-order', inv.where, f'invoke must call {fparam}(*{curried}, *{vararg}); returns {[unparse(r_.value) for r_ in ret]}')
 	rc.note('DI.__assert_invoke indexes expect_types[index] while enumerating remain_args before comparing lengths: too many arguments raise IndexError rather than ValueError (observation, not armed: no static bound on the two lengths)')
 
 	# ---- (d) wiring ------------------------------------------------------------------------------------------------------------
